@@ -56,6 +56,16 @@ def model_cases(ctx):
                               vals=[0, 2, 4] if i % 4 else [0, 2], ws=[1, 2, 5] if i % 2 else [0, 3, 4])
         case["diag"] = i % 4  # every division is a legal one for the model
         cases.append(case)
+    if not ctx.quick:
+        # every two-level field on the 2x2x1 mesh, every main diagonal
+        import itertools
+        for d in range(4):
+            for f in itertools.product([0, 2], repeat=4):
+                case, _ = M.make_case(rng, [2, 2, 1], M.GRAMS[0], "identity", "spglib", nb=1, ncoef=3, vals=[0, 2],
+                                      ws=[-1, 0, 1, 2, 3])
+                case["irvals"] = [list(f)]
+                case["diag"] = d
+                cases.append(case)
     return cases
 
 
@@ -119,22 +129,29 @@ INVARIANT ConformsDosKernel
 
 
 def trace_cases(ctx):
+    """(case, metric, G, cls): meshes x lattices x mapping (identity / inversion pairs) x address style; the
+    frequency lists lie inside the spectrum, off the grid values ("offtie") or on them ("tie")"""
     rng = np.random.default_rng(2000 + ctx.seed)
     out = []
     n = 8 if ctx.quick else 96
-    meshes = [[2, 2, 1], [3, 2, 1], [2, 2, 2], [1, 2, 3], [3, 1, 2], [4, 1, 1]]
+    plan = [([3, 2, 1], "inversion"), ([4, 1, 1], "inversion"), ([2, 2, 1], "identity"), ([2, 2, 2], "identity"),
+            ([1, 2, 3], "inversion"), ([3, 1, 2], "identity"), ([3, 2, 1], "identity"), ([2, 1, 3], "inversion"),
+            ([3, 3, 1], "inversion"), ([2, 3, 2], "identity"), ([5, 1, 1], "inversion"), ([1, 4, 2], "inversion")]
     for i in range(n):
-        mesh = meshes[i % len(meshes)]
-        G = M.GRAMS[i % len(M.GRAMS)]
+        mesh, mapkind = plan[i % len(plan)]
+        G = M.GRAMS[(i + ctx.seed) % len(M.GRAMS)]
         vals = [0, 2, 4] if i % 3 else [0, 2, 4, 6]
-        cls = "offtie" if i % 2 == 0 else "tie"
-        ws = [1, 3, 7] if cls == "offtie" else [2, 4, 7]
+        want = "offtie" if i % 2 == 0 else "tie"
+        ws = [1, 3, 5] if want == "offtie" else [2, 4, 7]
         if i % 4 == 2:
-            ws = [-1, 1, 5]
-        case, metric = M.make_case(rng, mesh, G, "inversion" if i % 3 == 2 else "identity",
-                                   ["spglib", "canonical", "shifted"][(i // 2) % 3], nb=2, ncoef=3, vals=vals, ws=ws)
-        allv = set(x for b in case["irvals"] for x in b)
-        cls = "tie" if any(w in allv for w in case["ws"]) else "offtie"
+            ws = [-1, 1, 3]
+        for _ in range(20):
+            case, metric = M.make_case(rng, mesh, G, mapkind, ["spglib", "canonical", "shifted"][(i // 2) % 3],
+                                       nb=2, ncoef=3, vals=vals, ws=ws)
+            allv = set(x for b in case["irvals"] for x in b)
+            cls = "tie" if any(w in allv for w in case["ws"]) else "offtie"
+            if cls == want and len(allv) > 1:
+                break
         out.append((case, metric, G, cls))
     return out
 
@@ -150,6 +167,11 @@ def step_d(ctx):
         events.append(ev)
         diags.add(tuple(M.shortest_diags(metric)))
         ctx.count(("meshtrace", tuple(case["mesh"]), str(G), tuple(case["map"]), str(case["irvals"]), tuple(case["ws"])))
+    # no vacuity: densities are non-zero, also in an event whose mapping merges grid points
+    def nonzero(e):
+        return any(x[0] != 0 for row in e["dosK"]["I"] for x in row)
+    if not any(nonzero(e) and e["cs"]["map"] != list(range(len(e["cs"]["map"]))) for e in events if e["cls"] == "offtie"):
+        raise tlcmod.MachineryError("mesh traces: no off-tie event with merged grid points and non-zero density")
     from harness.props.c11 import report
 
     def describe(e, st):
@@ -179,9 +201,10 @@ MC_TAB = """---- MODULE MC_TetraTables ----
 EXTENDS TetraMesh
 TabC == %s
 TabPy == %s
-ImplAllTablesC == \\A d \\in 0..3 : TableContract(TabC[d + 1], d)
-ImplAllTablesPy == \\A d \\in 0..3 : TableContract(TabPy[d + 1], d)
-ConformsAllTablesPy == \\A d \\in 0..3 : TabPy[d + 1] = BuildTable(d)
+(* (state-level on purpose: TLC reports a false constant-level invariant as an error, not as a violation) *)
+ImplAllTablesC == (mpc = "choose") => \\A d \\in 0..3 : TableContract(TabC[d + 1], d)
+ImplAllTablesPy == (mpc = "choose") => \\A d \\in 0..3 : TableContract(TabPy[d + 1], d)
+ConformsAllTablesPy == (mpc = "choose") => \\A d \\in 0..3 : TabPy[d + 1] = BuildTable(d)
 InvBuildTable == \\A d \\in 0..3 : TableContract(BuildTable(d), d)
 ====
 """
